@@ -1286,6 +1286,8 @@ func execC02M(ops []Op) []string {
 		return c02ExecMisc(ops)
 	case "tail":
 		return c02ExecTail(ops)
+	case "cc":
+		return c02ExecCC(ops)
 	}
 	return c02ExecReg(ops)
 }
@@ -1301,7 +1303,8 @@ func runC02M(run *Run) {
 	run.Rule = "C02 mechanism: (1) random operation sequences on the real registry vs the Lean registry model, exact incl. Go-nil slots; " +
 		"(2) one-step correspondence of every executed OP_CALL/TAILCALL/RETURN/VARARG/SETLIST/SELF/TFORLOOP-setup, callR and callGFunction result delivery on generated programs (pre-state observed through the step hook → model post-state = observed post-state); " +
 		"(3) bounded-exhaustive Go-API grid kind{lua,go,__call} x np 0..3 x vararg x nargs 0..5 x NRet{-1,0,1,2,3,6} x 16 return shapes vs Spec adjust/bind (a test, labelled as such); " +
-		"(4) select/unpack index windows, SETLIST flush plans of the real compiler for constructor shapes around multiples of FieldsPerFlush and > 511 blocks; (5) 10^6-deep tail recursion with CallStackSize 4. " +
+		"(4) select/unpack index windows, SETLIST flush plans of the real compiler for constructor shapes around multiples of FieldsPerFlush and > 511 blocks; (5) 10^6-deep tail recursion with CallStackSize 4; " +
+		"(6) compile-time half: generated call shapes (producers = atoms, calls, method calls, `...`, parenthesised forms, constructors; contexts = argument lists, return lists, local declarations, multiple assignments, call statements; + bounded-exhaustive context x length x last-producer grid, constructors around the flush boundaries and beyond 511 batches, operand/register limits) compiled by the real compiler: every code word, the constant pool, NumUsedRegisters and IsVarArg vs Model.CallCompile, and the model's code executed on the model machine vs the Spec evaluation of the shape. " +
 		"distinct = distinct op skeletons"
 	run.Assume = []string{
 		"registry capacity suffices (growth/overflow is C12's model); the observed window is 40 slots (registry tie) resp. max(top)+6 slots (step tie)",
@@ -1406,6 +1409,30 @@ func runC02M(run *Run) {
 	addPlan(strings.Repeat("i", 25600), 0)
 	addPlan(strings.Repeat("i", 25600)+"m", 3)
 	addPlan(strings.Repeat("i", 25649)+"km", 2)
+	// (6) compile-time half: the real compiler's code for generated call shapes vs Model.CallCompile, word for word
+	nCC := 4000
+	if run.Tier == "thorough" {
+		nCC = 60000
+	}
+	ci := 5000000
+	addCC := func(progs [][]string, per int) {
+		for i := 0; i < len(progs); i += per {
+			var ops []Op
+			for j := i; j < i+per && j < len(progs); j++ {
+				ops = append(ops, Op{Args: progs[j]})
+			}
+			cases = append(cases, Case{Idx: ci, Ops: ops})
+			ci++
+		}
+	}
+	var ccProgs [][]string
+	for i := 0; i < nCC; i++ {
+		ccProgs = append(ccProgs, genCCProg(root.Fork(uint64(5000000+i))))
+	}
+	addCC(ccProgs, 10)
+	addCC(ccEnumShapes(), 10)
+	addCC(ccCtorShapes(run.Tier == "thorough"), 4)
+	addCC(ccLimitShapes(), 4)
 	// deep tail recursion
 	for i := range c02TailProgs {
 		cases = append(cases, Case{Idx: 4000000 + i, Ops: []Op{{Args: []string{"tail", strconv.Itoa(i), strconv.Itoa(tailN)}}}})
